@@ -34,8 +34,8 @@ template <class T,int index>
 static FixedArray<T>
 Color3Array_get(FixedArray<IMATH_NAMESPACE::Color3<T> > &ca)
 {    
-    return FixedArray<T>(&(ca.unchecked_index(0)[index]),
-                         ca.len(),3*ca.stride(),ca.handle(),ca.writable());
+    return FixedArray<T>(&(ca.unchecked_direct_index(0)[index]),
+                         3*ca.stride(),ca);
 }
 
 // Currently we are only exposing the RGBA components.
